@@ -11,14 +11,20 @@ theorem openDefault_eq (e : Option Str) :
     openDefault e = some { os := e.getD [], pending := [], lineBuffering := true, closed := false } := by
   simp [openDefault, openText, Gen.fileBuffering, Gen.fileMode]
 
-/-- the sink has an open, usable file object -/
-def Open (s : FileSink) : Prop := ∃ f, s.file = some f ∧ f.closed = false ∧ s.atPath = none
+theorem openMode_none (b : Int) (hb : b ≠ 0) (m : OpenMode) :
+    openMode b m none = .ok { os := [], pending := [], lineBuffering := b == 1, closed := false } := by
+  cases m <;> simp [openMode, hb]
+
+theorem parseMode_default : parseMode Gen.fileMode = some .append := by decide
+
+/-- the sink has an open, usable file object (and a `buffering` that `open()` accepts in text mode) -/
+def Open (s : FileSink) : Prop := ∃ f, s.file = some f ∧ f.closed = false ∧ s.atPath = none ∧ s.buffering ≠ 0
 
 def FileSink.content (s : FileSink) : Str := s.durable ++ s.pendingText
 
 theorem writePrims_eq (r : Bool) (m : Str) :
     writePrims r m = [.openIfNone] ++ (if r then [.closeIfOpen, .rename, .endOfLife true, .create] else []) ++ [.fwrite m] := by
-  cases r <;> simp [writePrims, Gen.fileWriteOps, writeOpPrims, terminatePrims, Gen.terminateClosesOpenFile]
+  cases r <;> simp [writePrims, Gen.fileWriteOps, writeOpPrims, terminatePrims, Gen.terminateOps, termOpPrims]
 
 
 theorem TextFile.write_open (f : TextFile) (hc : f.closed = false) (m : Str) :
@@ -32,39 +38,54 @@ theorem TextFile.write_open (f : TextFile) (hc : f.closed = false) (m : Str) :
 /-- one `FileSink.write`: all properties of the step at once -/
 theorem write_step (s : FileSink) (h : Open s) (r : Bool) (m : Str) :
     Open (s.write r m) ∧ (s.write r m).content = s.content ++ m := by
-  obtain ⟨f, hf, hc, ha⟩ := h
-  obtain ⟨rot, atp, file, hr, hcm, hrt, nc, nr⟩ := s
-  simp only at hf ha; subst hf ha
+  obtain ⟨f, hf, hc, ha, hbz⟩ := h
+  obtain ⟨rot, atp, file, hr, hcm, hrt, nc, nr, bu, mo⟩ := s
+  simp only at hf ha hbz; subst hf ha
   have W := TextFile.write_open f hc m
   unfold FileSink.write
   rw [writePrims_eq]
   cases hb : (r && hr)
-  · simp [runPrims, runPrim, Open, FileSink.content, FileSink.durable, FileSink.disk, FileSink.pendingText, W.1, W.2.2.1]
-  · have W2 := TextFile.write_open { os := [], pending := [], lineBuffering := true, closed := false } rfl m
+  · simp [runPrims, runPrim, Open, FileSink.content, FileSink.durable, FileSink.disk, FileSink.pendingText, W.1, W.2.2.1, hbz]
+  · have W2 := TextFile.write_open { os := [], pending := [], lineBuffering := bu == 1, closed := false } rfl m
     simp [runPrims, runPrim, Open, FileSink.content, FileSink.durable, FileSink.disk, FileSink.pendingText,
-      Gen.closeFileOps, runCloseOp, TextFile.close, TextFile.flush, hc, openDefault_eq, W2.1]
+      Gen.closeFileOps, runCloseOp, TextFile.close, TextFile.flush, hc, FileSink.reopen, openMode_none bu hbz, W2.1, hbz]
     have := W2.2.2.1
     simp at this
     simp [this]
 
-/-- open, line buffered, nothing in user space -/
+/-- open, line buffered, nothing in user space – and configured with `buffering=1`, so that the file a
+rotation creates is line buffered again (whatever the `mode`) -/
 def Ready (s : FileSink) : Prop :=
-  ∃ f, s.file = some f ∧ f.closed = false ∧ f.lineBuffering = true ∧ f.pending = [] ∧ s.atPath = none
+  ∃ f, s.file = some f ∧ f.closed = false ∧ f.lineBuffering = true ∧ f.pending = [] ∧ s.atPath = none ∧
+    s.buffering = 1
 
 theorem Ready.open {s : FileSink} (h : Ready s) : Open s := by
-  obtain ⟨f, a, b, _, _, e⟩ := h; exact ⟨f, a, b, e⟩
+  obtain ⟨f, a, b, _, _, e, g⟩ := h; exact ⟨f, a, b, e, by rw [g]; decide⟩
+
+/-- a sink constructed with `buffering=1` and ANY mode, `delay=False`: ready, and the disk holds what
+the mode keeps of the earlier content -/
+theorem newWith_ready (e : Option Str) (r c t : Bool) (mo : OpenMode) (hx : mo = .exclusive → e = none) :
+    Ready (FileSink.newWith e r c t 1 mo false) ∧ (FileSink.newWith e r c t 1 mo false).durable = mo.keeps e := by
+  cases mo <;> cases e <;>
+    simp_all [FileSink.newWith, FileSink.blank, Gen.initOpens, runPrim, FileSink.reopen, openMode, Ready, FileSink.durable,
+      FileSink.disk, OpenMode.keeps]
+
+theorem new_eq (e : Option Str) (r c t : Bool) :
+    FileSink.new e r c t = FileSink.newWith e r c t 1 .append false := by
+  simp [FileSink.new, parseMode_default, Gen.fileBuffering]
 
 theorem new_ready (e : Option Str) (r c t : Bool) :
     Ready (FileSink.new e r c t) ∧ (FileSink.new e r c t).durable = e.getD [] := by
-  simp [FileSink.new, runPrim, openDefault_eq, Ready, FileSink.durable, FileSink.disk]
+  rw [new_eq]
+  exact newWith_ready e r c t .append (by simp)
 
 /-- crash between any two primitives of one `FileSink.write` (rotation included) -/
 theorem write_prefix (s : FileSink) (h : Ready s) (r : Bool) (m : Str) (hm : hasLineEnd m = true) (j : Nat) :
     (runPrims s ((writePrims (r && s.hasRotation) m).take j)).durable =
       s.durable ++ (if (writePrims (r && s.hasRotation) m).length ≤ j then m else []) := by
-  obtain ⟨f, hf, hc, hl, hp, ha⟩ := h
-  obtain ⟨rot, atp, file, hr, hcm, hrt, nc, nr⟩ := s
-  simp only at hf ha; subst hf ha
+  obtain ⟨f, hf, hc, hl, hp, ha, hbu⟩ := h
+  obtain ⟨rot, atp, file, hr, hcm, hrt, nc, nr, bu, mo⟩ := s
+  simp only at hf ha hbu; subst hf ha hbu
   obtain ⟨os, pe, lb, cl⟩ := f
   simp only at hc hl hp; subst hc hl hp
   rw [writePrims_eq]
@@ -73,20 +94,20 @@ theorem write_prefix (s : FileSink) (h : Ready s) (r : Bool) (m : Str) (hm : has
       simp [runPrims, runPrim, FileSink.durable, FileSink.disk, TextFile.write, TextFile.flush, hm]
   · rcases j with _ | _ | _ | _ | _ | _ | j <;>
       simp [runPrims, runPrim, FileSink.durable, FileSink.disk, TextFile.write, TextFile.flush, hm,
-        Gen.closeFileOps, runCloseOp, TextFile.close, openDefault_eq]
+        Gen.closeFileOps, runCloseOp, TextFile.close, FileSink.reopen, openMode_none]
 
 theorem write_ready (s : FileSink) (h : Ready s) (r : Bool) (m : Str) (hm : hasLineEnd m = true) :
     Ready (s.write r m) ∧ (s.write r m).durable = s.durable ++ m := by
-  obtain ⟨f, hf, hc, hl, hp, ha⟩ := h
-  obtain ⟨rot, atp, file, hr, hcm, hrt, nc, nr⟩ := s
-  simp only at hf ha; subst hf ha
+  obtain ⟨f, hf, hc, hl, hp, ha, hbu⟩ := h
+  obtain ⟨rot, atp, file, hr, hcm, hrt, nc, nr, bu, mo⟩ := s
+  simp only at hf ha hbu; subst hf ha hbu
   obtain ⟨os, pe, lb, cl⟩ := f
   simp only at hc hl hp; subst hc hl hp
   unfold FileSink.write
   rw [writePrims_eq]
   cases hb : (r && hr) <;>
     simp [Ready, runPrims, runPrim, FileSink.durable, FileSink.disk, TextFile.write, TextFile.flush, hm,
-        Gen.closeFileOps, runCloseOp, TextFile.close, openDefault_eq]
+        Gen.closeFileOps, runCloseOp, TextFile.close, FileSink.reopen, openMode_none]
 
 
 def texts (cs : List Call) : Str := (cs.map (·.2)).flatten
@@ -117,7 +138,7 @@ theorem runCalls_content (cs : List Call) : ∀ (s : FileSink), Open s →
     rw [h2.2, h1.2]; simp [texts]
 
 theorem stopPrims_eq : stopPrims = [.closeIfOpen, .endOfLife false] := by
-  simp [stopPrims, Gen.fileStopTerminate, terminatePrims, Gen.terminateClosesOpenFile]
+  simp [stopPrims, Gen.fileStopTerminate, terminatePrims, Gen.terminateOps, termOpPrims]
 
 /-- `FileSink.stop()` on an open sink: the file is flushed and closed, nothing stays in user space,
 compression / retention run exactly when no rotation is configured -/
@@ -125,8 +146,8 @@ theorem stop_open (s : FileSink) (h : Open s) :
     s.stop.file = none ∧ s.stop.durable = s.content ∧ s.stop.pendingText = [] ∧
     s.stop.compressions = s.compressions + (if s.hasCompression && !s.hasRotation then 1 else 0) ∧
     s.stop.retentions = s.retentions + (if s.hasRetention && !s.hasRotation then 1 else 0) := by
-  obtain ⟨f, hf, hc, ha⟩ := h
-  obtain ⟨rot, atp, file, hr, hcm, hrt, nc, nr⟩ := s
+  obtain ⟨f, hf, hc, ha, _⟩ := h
+  obtain ⟨rot, atp, file, hr, hcm, hrt, nc, nr, bu, mo⟩ := s
   simp only at hf ha; subst hf ha
   unfold FileSink.stop
   rw [stopPrims_eq]
@@ -167,6 +188,24 @@ theorem workerIter_gen (k : Sink) :
     workerIter Gen.workerOps k .sentinel = none ∧ workerIter Gen.workerOps k .confirm = some k := by
   simp [Gen.workerOps, workerIter]
 
+theorem workerIter_poison (k : Sink) : workerIter Gen.workerOps k .poison = some k := by
+  simp [Gen.workerOps, workerIter]
+
+/-- the worker over any items without a sentinel: every MESSAGE among them is written, in order, whatever
+else travels through the queue (confirmation tokens, items that cannot be un-pickled) -/
+theorem workerRunQ_all (q : List QItem) (hq : ∀ it ∈ q, it ≠ .sentinel) : ∀ k : Sink,
+    workerRunQ Gen.workerOps k q = ((msgsOf q).foldl Sink.write k, []) := by
+  induction q with
+  | nil => intro k; rfl
+  | cons it r ih =>
+    intro k
+    have ih' := ih (fun x hx => hq x (by simp [hx]))
+    cases it with
+    | msg c => simp [workerRunQ, (workerIter_gen k).1 c, ih', msgsOf]
+    | confirm => simp [workerRunQ, (workerIter_gen k).2.2, ih', msgsOf]
+    | sentinel => exact absurd rfl (hq .sentinel (by simp))
+    | poison => simp [workerRunQ, workerIter_poison k, ih', msgsOf]
+
 theorem workerRun_all (q : List Call) : ∀ k : Sink, workerRun Gen.workerOps k q = (q.foldl Sink.write k, []) := by
   induction q with
   | nil => intro k; rfl
@@ -183,12 +222,12 @@ ARBITRARY for handlers without `enqueue` – a process forked after `add()` (dae
 the handlers it inherited; only an enqueued handler belongs to the process that runs its worker -/
 def Live (h : Handler) : Prop :=
   h.stopped = false ∧ (h.enqueue = true → h.owner = true) ∧ h.sentinel = false ∧ h.joined = false ∧
-  h.hung = false ∧ (h.enqueue = false → h.queue = [])
+  h.hung = false ∧ (h.enqueue = false → h.queue = []) ∧ h.workerDead = false
 
 theorem handler_stop (h : Handler) (hl : Live h) : h.stop = h.final := by
-  obtain ⟨enq, own, q, sk, st, se, jo, hu⟩ := h
-  obtain ⟨a, b, c, d, e, f⟩ := hl
-  simp only at a b c d e f; subst a c d e
+  obtain ⟨enq, own, q, sk, st, se, jo, hu, wd⟩ := h
+  obtain ⟨a, b, c, d, e, f, g⟩ := hl
+  simp only at a b c d e f g; subst a c d e g
   cases enq
   · simp at f; subst f
     cases own <;> simp [Handler.stop, Handler.final, Gen.handlerStopOps, runStopOp]
@@ -241,4 +280,151 @@ theorem runCalls_config (cs : List Call) : ∀ s : FileSink, (runCalls s cs).con
   | nil => intro s; rfl
   | cons c cs ih =>
     intro s; simp only [runCalls, List.foldl_cons] at ih ⊢; rw [ih]; exact runPrims_config _ _
+end Buffer
+
+namespace Buffer
+open Py
+
+/-! ### round 5: the tail of `Handler.emit`, interleavings with the worker thread, other `open()` arguments -/
+
+/-- the REGENERATED tail of `Handler.emit`: a stopped handler drops the message; otherwise an enqueued
+handler appends it to its queue and any other handler has written it through its sink – before the
+logging call returns -/
+theorem emit_gen (h : Handler) (c : Call) :
+    h.emit c = if h.stopped then h else if h.enqueue then { h with queue := h.queue ++ [c] }
+      else { h with sink := h.sink.write c } := by
+  obtain ⟨enq, own, q, sk, st, se, jo, hu, wd⟩ := h
+  cases st <;> cases enq <;> simp [Handler.emit, Gen.emitOps, runEmitOp, runEmitAct]
+
+/-- the sink as it will be once the worker has caught up with the queue -/
+def Handler.pendingSink (h : Handler) : Sink := h.queue.foldl Sink.write h.sink
+
+theorem step_live (h : Handler) (hl : Live h) (e : Ev) :
+    Live (h.step e) ∧ (h.step e).enqueue = h.enqueue ∧
+    (h.step e).pendingSink = (match e with | .log c => h.pendingSink.write c | .worker => h.pendingSink) := by
+  obtain ⟨enq, own, q, sk, st, se, jo, hu, wd⟩ := h
+  obtain ⟨a, b, c, d, f, g, w⟩ := hl
+  simp only at a b c d f g w; subst a c d f w
+  cases e with
+  | log x =>
+    cases enq
+    · simp at g; subst g
+      simp [Handler.step, emit_gen, Live, Handler.pendingSink]
+    · simp at b; subst b
+      simp [Handler.step, emit_gen, Live, Handler.pendingSink]
+  | worker =>
+    cases enq
+    · simp at g; subst g
+      simp [Handler.step, Handler.workerStep, Live, Handler.pendingSink]
+    · simp at b; subst b
+      cases q with
+      | nil => simp [Handler.step, Handler.workerStep, Live, Handler.pendingSink]
+      | cons x r =>
+        simp [Handler.step, Handler.workerStep, Live, Handler.pendingSink, (workerIter_gen sk).1 x]
+
+theorem run_live (evs : List Ev) : ∀ (h : Handler), Live h →
+    Live (h.run evs) ∧ (h.run evs).enqueue = h.enqueue ∧
+    (h.run evs).pendingSink = (logged evs).foldl Sink.write h.pendingSink := by
+  induction evs with
+  | nil => intro h hl; exact ⟨hl, rfl, rfl⟩
+  | cons e evs ih =>
+    intro h hl
+    obtain ⟨l1, e1, p1⟩ := step_live h hl e
+    obtain ⟨l2, e2, p2⟩ := ih (h.step e) l1
+    simp only [Handler.run, List.foldl_cons] at l2 e2 p2 ⊢
+    refine ⟨l2, e2.trans e1, ?_⟩
+    rw [p2, p1]
+    cases e <;> simp [logged]
+
+/-- `stop()` of an enqueued handler whose worker thread has ended (whatever the reason): nothing hangs,
+the sink is stopped, the queue stays unread -/
+theorem stop_dead_worker (h : Handler) (he : h.enqueue = true) (ho : h.owner = true) (hd : h.workerDead = true) :
+    h.stop = { h with stopped := true, sentinel := true, joined := true, sink := h.sink.stop } := by
+  obtain ⟨enq, own, q, sk, st, se, jo, hu, wd⟩ := h
+  simp only at he ho hd; subst he ho hd
+  simp [Handler.stop, Gen.handlerStopOps, runStopOp]
+
+/-- a sink constructed with ANY buffering `open()` accepts and any mode: open, and disk + user space
+hold what the mode keeps of the earlier content -/
+theorem newWith_open (e : Option Str) (r c t : Bool) (b : Int) (hb : b ≠ 0) (mo : OpenMode)
+    (hx : mo = .exclusive → e = none) :
+    Open (FileSink.newWith e r c t b mo false) ∧ (FileSink.newWith e r c t b mo false).content = mo.keeps e ∧
+    (FileSink.newWith e r c t b mo false).config = (r, c, t) := by
+  cases mo <;> cases e <;>
+    simp_all [FileSink.newWith, FileSink.blank, Gen.initOpens, runPrim, FileSink.reopen, openMode, Open, FileSink.content,
+      FileSink.durable, FileSink.disk, FileSink.pendingText, OpenMode.keeps, FileSink.config]
+
+theorem openIfNone_idem (s : FileSink) (h : s.file = none) :
+    runPrim (runPrim s .openIfNone) .openIfNone = runPrim s .openIfNone := by
+  cases hr' : s.reopen with
+  | none =>
+    have e1 : runPrim s .openIfNone = s := by
+      obtain ⟨rot, atp, file, hr, hcm, hrt, nc, nr, bu, mo⟩ := s
+      simp only at h; subst h
+      simp [runPrim, hr']
+    rw [e1, e1]
+  | some f =>
+    have e1 : (runPrim s .openIfNone).file = some f := by simp [runPrim, h, hr']
+    generalize runPrim s .openIfNone = s1 at e1
+    simp [runPrim, e1]
+
+/-- `delay=True` only postpones the `open()`: the first `write` opens the file exactly as the
+constructor would have -/
+theorem delayed_write (e : Option Str) (r c t : Bool) (b : Int) (mo : OpenMode) (rd : Bool) (m : Str) :
+    (FileSink.newWith e r c t b mo true).write rd m = (FileSink.newWith e r c t b mo false).write rd m := by
+  unfold FileSink.write
+  have h1 : (FileSink.newWith e r c t b mo true).hasRotation = (FileSink.newWith e r c t b mo false).hasRotation := by
+    have := runPrim_config (FileSink.blank e r c t b mo) .openIfNone
+    simp only [FileSink.config, Prod.mk.injEq] at this
+    simp [FileSink.newWith, Gen.initOpens, this.1]
+  rw [h1, writePrims_eq]
+  simp only [runPrims, List.append_assoc, List.foldl_append, List.foldl_cons, List.foldl_nil]
+  congr 1
+  congr 1
+  simp only [FileSink.newWith, Gen.initOpens, Bool.not_true, Bool.false_eq_true, ↓reduceIte, Bool.not_false]
+  exact (openIfNone_idem _ rfl).symm
+
+/-! ### `watch=True` -/
+
+theorem writePrimsW_eq (mv r : Bool) (m : Str) :
+    writePrimsW mv r m = [.openIfNone] ++ (if mv then [.reopenMoved] else []) ++
+      (if r then [.closeIfOpen, .rename, .endOfLife true, .create] else []) ++ [.fwrite m] := by
+  cases r <;> cases mv <;>
+    simp [writePrimsW, Gen.fileWriteOps, writeOpPrimsW, writeOpPrims, terminatePrims, Gen.terminateOps, termOpPrims]
+
+theorem writeW_not_moved (s : FileSink) (r : Bool) (m : Str) : s.writeW false r m = s.write r m := by
+  simp [FileSink.writeW, FileSink.write, writePrimsW_eq, writePrims_eq]
+
+/-- the re-open after an external move: everything written so far stays on disk (in the moved file),
+the new file object is ready -/
+theorem reopenMoved_ready (s : FileSink) (h : Ready s) :
+    Ready (runPrim s .reopenMoved) ∧ (runPrim s .reopenMoved).durable = s.durable := by
+  obtain ⟨f, hf, hc, hl, hp, ha, hbu⟩ := h
+  obtain ⟨rot, atp, file, hr, hcm, hrt, nc, nr, bu, mo⟩ := s
+  simp only at hf ha hbu; subst hf ha hbu
+  obtain ⟨os, pe, lb, cl⟩ := f
+  simp only at hc hl hp; subst hc hl hp
+  simp [Ready, runPrim, FileSink.durable, FileSink.disk, Gen.closeFileOps, runCloseOp, TextFile.close, TextFile.flush,
+    FileSink.reopen, openMode_none]
+
+theorem writeW_ready (s : FileSink) (h : Ready s) (mv r : Bool) (m : Str) (hm : hasLineEnd m = true) :
+    Ready (s.writeW mv r m) ∧ (s.writeW mv r m).durable = s.durable ++ m := by
+  cases mv
+  · rw [writeW_not_moved]; exact write_ready s h r m hm
+  · have h1 := reopenMoved_ready s h
+    have hcfg := runPrim_config s .reopenMoved
+    simp only [FileSink.config, Prod.mk.injEq] at hcfg
+    have h2 := write_ready _ h1.1 r m hm
+    have e : s.writeW true r m = (runPrim s .reopenMoved).write r m := by
+      obtain ⟨f, hf, _⟩ := h
+      obtain ⟨f1, hf1, _⟩ := h1.1
+      have o1 : runPrim s .openIfNone = s := by simp [runPrim, hf]
+      have o2 : runPrim (runPrim s .reopenMoved) .openIfNone = runPrim s .reopenMoved := by
+        generalize runPrim s .reopenMoved = s1 at hf1
+        simp [runPrim, hf1]
+      simp only [FileSink.writeW, FileSink.write, writePrimsW_eq, writePrims_eq, hcfg.1, runPrims, ↓reduceIte,
+        List.append_assoc, List.foldl_append, List.foldl_cons, List.foldl_nil, o1, o2]
+    rw [e, h2.2, h1.2]
+    exact ⟨h2.1, rfl⟩
+
 end Buffer
